@@ -45,6 +45,12 @@ def execute(case):
         a = case["args"]
         da = model.make_array(a["data"], nm, ds, name="v1")
         kw = model.call_kwargs(a, nm)
+        if case.get("id", 0) % 4 == 0:
+            # an earlier operation on the same Grid (other axis, other data): nothing of it may linger
+            try:
+                getattr(grid, case["op"])(da * 2 + 1, nm("a2" if a["axis"][0] == "a1" else "a1"), boundary="extend")
+            except Exception:
+                pass
         res = getattr(grid, case["op"])(da, nm(a["axis"][0]), **kw)
         rec["out"] = model.encode_result(res, 2 if case["op"] == "interp" else 1, nm)
     except Exception as ex:
